@@ -413,6 +413,18 @@ def edge_family():
                     tasks = [t0, t1, t2, t3][:n]
                     cases.append(dict(n=n, tasks=[dict(t) for t in tasks], selected=list(sel), cont=True, always=False,
                                       flavour=fl, k=k, sched=[0] * 12))
+    # two dependencies: the interesting one (task 1) finishes while the dependent still waits for another
+    # one (task 3), in both listing orders; the dependent's node exists first (it is the only selection)
+    for kind in ('task_dep', 'setup', 'calc_dep', 'file_edge'):
+        for vname, upd in variants:
+            for order in ([1, 3], [3, 1]):
+                for sel in ([0, 2], [0]):
+                    for fl, k in (('serial', 1), ('thread', 2), ('proc', 2)):
+                        t0, t1, t2, t3 = blank(), blank(), blank(), blank()
+                        t1.update(upd)
+                        t0[kind] = list(order)
+                        cases.append(dict(n=4, tasks=[dict(t) for t in (t0, t1, t2, t3)], selected=list(sel), cont=True, always=False,
+                                          flavour=fl, k=k, sched=[0] * 12))
     return cases
 
 def run_property(ctx, pid, n_quick=320, n_thorough=4000, extra_cases=()):
